@@ -80,10 +80,12 @@ func (r *Rule) add(st Status, construct string, pos token.Pos, msg string) *Inst
 }
 
 // construct is "function|what", stable under line moves.
-func (r *Rule) OK(construct string, pos token.Pos, msg string)   { r.add(OK, construct, pos, msg) }
-func (r *Rule) Bad(construct string, pos token.Pos, msg string)  { r.add(Bad, construct, pos, msg) }
-func (r *Rule) Ex(construct string, pos token.Pos, msg string)   { r.add(Exempt, construct, pos, msg) }
-func (r *Rule) Und(construct string, pos token.Pos, msg string)  { r.add(Undecided, construct, pos, msg) }
+func (r *Rule) OK(construct string, pos token.Pos, msg string)  { r.add(OK, construct, pos, msg) }
+func (r *Rule) Bad(construct string, pos token.Pos, msg string) { r.add(Bad, construct, pos, msg) }
+func (r *Rule) Ex(construct string, pos token.Pos, msg string)  { r.add(Exempt, construct, pos, msg) }
+func (r *Rule) Und(construct string, pos token.Pos, msg string) {
+	r.add(Undecided, construct, pos, msg)
+}
 func (r *Rule) Info(construct string, pos token.Pos, msg string) { r.add(Info, construct, pos, msg) }
 
 // Decide adds OK when cond holds, otherwise Bad.
